@@ -88,7 +88,7 @@ def Opd.direct : Opd → Bool
 def supported : Mn → Bool
   | .LDA | .LDX | .LDY | .STA | .STX | .STY | .TAX | .TAY | .TXA | .TYA
   | .ADC | .SBC | .EOR | .AND | .ORA | .CLC | .SEC | .CMP | .CPX | .CPY
-  | .INC | .DEC | .INX | .INY | .DEX | .DEY | .NOP | .ASL | .LSR | .ROL | .ROR => true
+  | .INC | .DEC | .INX | .INY | .DEX | .DEY | .NOP | .ASL | .LSR | .ROL | .ROR | .PHA | .PLA => true
   | _ => false
 
 /-- a shift or rotate of the accumulator (no operand) -/
@@ -99,7 +99,7 @@ def readsReg (mn : Mn) (o : Opd) (r : Res) : Bool :=
   (r == .x && Opd.usesX o) || (r == .y && Opd.usesY o) ||
   (accShift mn o && r == .a) || ((mn == .ROL || mn == .ROR) && r == .c) ||
   (match mn, r with
-   | .STA, .a | .TAX, .a | .TAY, .a | .ADC, .a | .SBC, .a | .EOR, .a | .AND, .a | .ORA, .a | .CMP, .a => true
+   | .STA, .a | .TAX, .a | .TAY, .a | .ADC, .a | .SBC, .a | .EOR, .a | .AND, .a | .ORA, .a | .CMP, .a | .PHA, .a => true
    | .ADC, .c | .SBC, .c => true
    | .STX, .x | .TXA, .x | .CPX, .x | .INX, .x | .DEX, .x => true
    | .STY, .y | .TYA, .y | .CPY, .y | .INY, .y | .DEY, .y => true
@@ -110,12 +110,12 @@ def writesReg (mn : Mn) (o : Opd) (r : Res) : Bool :=
   (accShift mn o && r == .a) ||
   ((mn == .ASL || mn == .LSR || mn == .ROL || mn == .ROR) && (r == .nz || r == .c)) ||
   match mn, r with
-  | .LDA, .a | .TXA, .a | .TYA, .a | .ADC, .a | .SBC, .a | .EOR, .a | .AND, .a | .ORA, .a => true
+  | .LDA, .a | .TXA, .a | .TYA, .a | .ADC, .a | .SBC, .a | .EOR, .a | .AND, .a | .ORA, .a | .PLA, .a => true
   | .LDX, .x | .TAX, .x | .INX, .x | .DEX, .x => true
   | .LDY, .y | .TAY, .y | .INY, .y | .DEY, .y => true
   | .LDA, .nz | .LDX, .nz | .LDY, .nz | .TAX, .nz | .TAY, .nz | .TXA, .nz | .TYA, .nz
   | .ADC, .nz | .SBC, .nz | .EOR, .nz | .AND, .nz | .ORA, .nz | .CMP, .nz | .CPX, .nz | .CPY, .nz
-  | .INC, .nz | .DEC, .nz | .INX, .nz | .INY, .nz | .DEX, .nz | .DEY, .nz => true
+  | .INC, .nz | .DEC, .nz | .INX, .nz | .INY, .nz | .DEX, .nz | .DEY, .nz | .PLA, .nz => true
   | .ADC, .c | .SBC, .c | .CMP, .c | .CPX, .c | .CPY, .c | .CLC, .c | .SEC, .c => true
   | _, _ => false
 
@@ -326,6 +326,9 @@ def xfer (K : Facts) (mn : Mn) (o : Opd) : Facts :=
   | .INC | .DEC => { (K.kill Src.isMem) with nz := none, z := none }
   | .INX | .DEX => { (K.kill Src.usesX) with x := [], nz := some .x, z := none }
   | .INY | .DEY => { (K.kill Src.usesY) with y := [], nz := some .y, z := none }
+  -- the stack: a push writes one cell of memory (whichever it is), a pull replaces A
+  | .PHA => K.kill Src.isMem
+  | .PLA => { (K.kill Src.usesA) with a := [], nz := some .a, z := none }
   | _ => Facts.top
 
 /-- facts holding whenever control is at the line *after* `l` having fallen through it;
